@@ -253,8 +253,8 @@ pub fn c16() -> Check {
         assumptions: ASSUME,
         required: &["custom_items_sent", "custom_items_received", "broadcast_calls"],
         workloads: vec![
-            Workload { name: "chaos", f: chaos_c16, quick: 20_000, thorough: 1_000_000, flav: Flav::Both },
-            Workload { name: "driver", f: driver_c16, quick: 30_000, thorough: 1_500_000, flav: Flav::Both },
+            Workload { name: "chaos", f: chaos_c16, quick: 20_000, thorough: 1_000_000, flav: Flav::Checked },
+            Workload { name: "driver", f: driver_c16, quick: 30_000, thorough: 1_500_000, flav: Flav::Checked },
             Workload { name: "sweep", f: sweep_c16, quick: 1_100, thorough: 55_000, flav: Flav::Both },
             Workload { name: "big", f: big_c16, quick: 400, thorough: 20_000, flav: Flav::Plain },
             Workload { name: "simmon", f: simmon_c16, quick: 1_500, thorough: 80_000, flav: Flav::Checked },
